@@ -115,6 +115,21 @@ func RunCases(t *testing.T, rep *Report, testName string, n, workers int, stall 
 					rep.NotExhaustive(fmt.Sprintf("worker %d %s before journaling a case: %s", w, how, tail(outBuf.String(), 500)))
 					return
 				}
+				if how == "hang" {
+					// a stall under load is not a hang: run that case again, alone, with a generous deadline, before believing it
+					confirm := stall * 20
+					if confirm < 5*time.Minute {
+						confirm = 5 * time.Minute
+					}
+					if part, ok := runSingleCase(testName, bad, confirm, dir, w); ok {
+						rep.Merge(part)
+						rep.Note(fmt.Sprintf("case %d made no progress for %s in a busy worker but completed when run alone (not a hang)", bad, stall))
+						skip[bad] = true
+						from = doneThrough + workers
+						continue
+					}
+					how = fmt.Sprintf("hang (confirmed: no completion within %s when run alone)", confirm)
+				}
 				dmu.Lock()
 				deaths++
 				dmu.Unlock()
@@ -131,7 +146,43 @@ func RunCases(t *testing.T, rep *Report, testName string, n, workers int, stall 
 	return true
 }
 
+// runSingleCase runs one case in its own worker subprocess; ok is false if it did not complete within the deadline.
+func runSingleCase(testName string, i int, deadline time.Duration, dir string, w int) (*Report, bool) {
+	out := filepath.Join(dir, fmt.Sprintf("single%d.json", w))
+	_ = os.Remove(out)
+	cmd := exec.Command(os.Args[0], "-test.run", "^"+testName+"$", "-test.timeout", "0")
+	cmd.Env = append(os.Environ(), "VERIF_CASES_WORKER=1", fmt.Sprintf("VERIF_CASES_ONLY=%d", i), "VERIF_CASES_JOURNAL="+filepath.Join(dir, fmt.Sprintf("sj%d", w)), "VERIF_WORKER_OUT="+out)
+	var buf strings.Builder
+	cmd.Stdout, cmd.Stderr = &buf, &buf
+	if err := cmd.Start(); err != nil {
+		return nil, false
+	}
+	done := make(chan error, 1)
+	go func() { done <- cmd.Wait() }()
+	select {
+	case err := <-done:
+		if err != nil {
+			return nil, false
+		}
+	case <-time.After(deadline):
+		_ = cmd.Process.Kill()
+		<-done
+		return nil, false
+	}
+	var part Report
+	if b, err := os.ReadFile(out); err == nil && json.Unmarshal(b, &part) == nil {
+		return &part, true
+	}
+	return nil, false
+}
+
 func runCasesWorker(t *testing.T, rep *Report, n int, fn func(i int)) {
+	if only := os.Getenv("VERIF_CASES_ONLY"); only != "" {
+		i, _ := strconv.Atoi(only)
+		_ = os.WriteFile(os.Getenv("VERIF_CASES_JOURNAL"), []byte(only), 0o644)
+		fn(i)
+		return
+	}
 	from, _ := strconv.Atoi(os.Getenv("VERIF_CASES_FROM"))
 	stride, _ := strconv.Atoi(os.Getenv("VERIF_CASES_STRIDE"))
 	journal := os.Getenv("VERIF_CASES_JOURNAL")
